@@ -1,10 +1,13 @@
 #!/bin/bash
-# Re-records the identity table of the named module functions (name, receiver, signature, static callees) that the
+# Re-records the identity tables of the named module functions (name, receiver, signature, static callees) and of the
+# fields of the named struct types (name, type) that the
 # rename recovery of the checker compares the current tree with. Run it only on a tree whose anchors were reviewed:
 # the table says "these are the functions the rules were written against".
 set -e
 cd /verif
 ./bin/kmcheck -dump pinned > /tmp/pinned_funcs.$$.json
+./bin/kmcheck -dump pinnedfields > /tmp/pinned_fields.$$.json
 mv /tmp/pinned_funcs.$$.json checker/internal/km/pinned_funcs.json
+mv /tmp/pinned_fields.$$.json checker/internal/km/pinned_fields.json
 ./scripts/build.sh
 ./bin/kmcheck -dump renames
